@@ -32,7 +32,7 @@ ASSUMPTIONS = [
     "user-supplied commit(offsets) is outside the statement and not generated",
     "only OffsetFetch replies that were actually delivered to the member count as 'the committed offset it was given'",
 ]
-REQUIRED_COUNTERS = ["histories_judged", "commits_accepted", "commit_partitions_checked", "commits_with_deliveries_below",
+REQUIRED_COUNTERS = ["histories_judged", "histories_read_committed_with_transactions", "commits_accepted", "commit_partitions_checked", "commits_with_deliveries_below",
                      "records_required", "records_delivered_at_least_once", "periods_started_from_committed",
                      "kills_executed", "stops_executed", "redelivered_records", "final_commits_on_stop",
                      "commits_before_rebalance", "crash_point_runs"]
